@@ -1065,7 +1065,7 @@ def extract_function(repo, spec, cfg, rw=None):
         ret = spec['ret']
     body_src = text[fn['body_start']:fn['body_end'] + 1]
     for pat, repl, cnt in spec.get('pre_subs', []):
-        body_src, n = re.subn(pat, lambda m_: repl + '\n' * m_.group(0).count('\n'), body_src, flags=re.S)
+        body_src, n = re.subn(pat, lambda m_: (repl(m_) if callable(repl) else repl) + '\n' * m_.group(0).count('\n'), body_src, flags=re.S)
         lo_, hi_ = cnt if isinstance(cnt, tuple) else (cnt, cnt)
         if not (lo_ <= n <= hi_):
             raise ExtractError('%s: pre_sub %r matched %d times, expected %s' % (spec['name'], pat, n, cnt))
